@@ -11,6 +11,9 @@ import (
 
 // C06 — Router.Close is graceful: returns nil only when no handler runs or can start.
 
+// c6LongHandler outlives every CloseTimeout by far: waiting for it is hanging.
+const c6LongHandler = time.Minute
+
 type c6Inv struct {
 	handler      string
 	uuid         string
@@ -71,7 +74,7 @@ func c06Body(r *Run) {
 		uuid  string
 	}
 	var gcMsgs []pubPlan
-	durs := []time.Duration{0, 0, 100 * time.Millisecond, 5 * time.Second}
+	durs := []time.Duration{0, 0, 100 * time.Millisecond, c6LongHandler}
 	for i := 0; i < nH; i++ {
 		h := &c6Handler{name: fmt.Sprintf("h%d", i), topic: fmt.Sprintf("t%d", i), dur: map[string]time.Duration{}}
 		h.sub = NewScriptedSubscriber(r, h.name+"-sub")
@@ -198,10 +201,12 @@ func c06Body(r *Run) {
 			// handlers run: the nil-return rules below apply; what Run does afterwards is outside the property
 			r.Probe("close-before-running")
 		}
-		// "returns an error instead of hanging": no call takes (noticeably) longer than CloseTimeout of simulated time
+		// "returns an error instead of hanging": a call that waits for the long handler (a minute) hangs. How the
+		// timeout is split over the phases of the shutdown and over queued callers is the router's business: a
+		// generous multiple of CloseTimeout per caller is allowed.
 		if r.Params["clock_jumps"] == 0 {
 			for _, c := range closes {
-				if d := c.retAt - c.invAt; d > closeTimeout+200*time.Millisecond {
+				if d := c.retAt - c.invAt; d > time.Duration(4*(len(closes)+1))*closeTimeout {
 					r.Fail("C06.R3", "a Router.Close call took longer than CloseTimeout", "%s took %v of simulated time, CloseTimeout %v, returned %v", c.who, d, closeTimeout, c.err)
 				}
 			}
@@ -285,7 +290,8 @@ func c06Body(r *Run) {
 		rig.RunReturned = true
 		close(runDone)
 		runInProgressAtReturn = len(running())
-		if (pan || rig.RunErr != nil) && !earlyClose {
+		// (the property says when Run returns, not what: only a panic is held against it)
+		if pan && !earlyClose {
 			r.Fail("C06.R5", "Router.Run failed", "%v %v", rig.RunErr, pv)
 		}
 		r.Logf("Router.Run returned (handlers in progress: %d)", runInProgressAtReturn)
